@@ -280,7 +280,14 @@ func (fv *FV) typeAssert(st *State, v Term, target types.Type, pos token.Pos) (T
 		}
 		return Term{fv.ss.Zero(tso), tso}, tBool(false)
 	default:
-		// opaque source: unknown dynamic type
+		// opaque source: decided by the dynamic type tag; the payload is the unboxed value
+		if v.Sort.Kind == KOpaque {
+			if _, isI := target.Underlying().(*types.Interface); !isI {
+				_, un := fv.ss.BoxFn(tso, v.Sort, target)
+				dt := fv.ss.DynTypeFn(v.Sort)
+				return Term{sx(un, v.S), tso}, Term{sx("=", sx(dt, v.S), fv.ss.StrConst("type:"+shortTypeName(target))), SBool}
+			}
+		}
 		r := fv.fresh("assert", tso)
 		okc := fv.fresh("assertok", SBool)
 		fv.note("type assertion on opaque interface value abstracted (result and success unconstrained)")
@@ -510,7 +517,7 @@ func (fv *FV) box(st *State, v Term, from types.Type, to *Sort, pos token.Pos) T
 			return Term{sx("refof_"+to.Name, v.S), to}
 		}
 		// deterministic injection into the opaque sort
-		fn, _ := fv.ss.BoxFn(v.Sort, to)
+		fn, _ := fv.ss.BoxFn(v.Sort, to, from)
 		r := Term{sx(fn, v.S), to}
 		if v.Sort.Kind == KPtr || v.Sort.Kind == KStruct {
 			st.assume(tNot(tEq(r, Term{fv.ss.Zero(to), to})))
